@@ -383,7 +383,7 @@ def cmd_run(prop, tier, seed, nproc, runs_override=None, only=None):
             if not ok:
                 raise HarnessError("cross-interpreter replay %s does not reproduce:\n%s" % (path, txt[-2000:]))
             violation_lines.append("VIOLATION property=%s replay=%s" % (prop, path))
-            log("violation %s: %s" % (key, entry["violation"]["message"][:300]))
+            log("violation %s x1: %s" % (key, entry["violation"]["message"][:300]))
             continue
         if n < max_min:
             try:
